@@ -73,7 +73,7 @@ def required(tier):
             "call_cache_entries_checked": 200, "ped_unequal_read_runs": 10, "tempered_runs": 5, "call_cache_high_ploidy_runs": 3,
             "cli_threshold_settings_compared": 12, "cli_records_compared": 60, "cli_tempered_settings": 2,
             "refit_assemble_compared": 15, "refit_pedigree_compared": 15, "refit_llk_cells_checked": 1000,
-            "cold_only_traces_checked": 20}
+            "cold_only_traces_checked": 20, "refit_read_sets_with_all_gap_reads": 8}
 
 
 # ---------------------------------------------------------------------------
@@ -654,6 +654,19 @@ def run_refit(tier, seed, spec, col):
         n2 = int(rng.integers(3, 12))
         reads2 = gen.gen_reads_from_haps(rng, truth, n2, I["n_alleles"], n_nucl=I["reads"].shape[2], gap_rate=0.2, err=0.01, flip=0.05)
         counts2 = gen.gen_counts(rng, n2)
+        if rng.random() < 0.5:
+            # reads that overlap the locus without covering a single SNV (all gaps), anywhere in the array, with their own
+            # counts: reads and counts are parallel arrays, whatever fit() does to one it must do to the other
+            k_gap = int(rng.integers(1, 3))
+            for _ in range(k_gap):
+                at = int(rng.integers(0, len(reads2) + 1)) if rng.random() < 0.5 else 0
+                reads2 = np.insert(reads2, at, np.nan, axis=0)
+                c_new = int(rng.integers(1, 6))
+                counts2 = None if counts2 is None else np.insert(counts2, at, c_new)
+            if counts2 is not None and len(set(int(c) for c in counts2)) == 1:
+                counts2 = counts2.copy()
+                counts2[-1] += 3
+            col.count("refit_read_sets_with_all_gap_reads")
         for thr in (0, -1):
             s0 = int(rng.integers(0, 2**31 - 1))
             kw = dict(ploidy=I["ploidy"], n_alleles=n_alleles, inbreeding=I["F"], steps=40, chains=2, fix_homozygous=1.5, random_seed=s0,
